@@ -49,7 +49,7 @@ THEOREMS = [
     'C05.gen_flip_eq_model', 'C05.gen_transform_eq_model', 'C05.gen_cleanEntry_eq_model', 'C05.gen_coords_eq_model',
     'C05.gen_lengths_eq_model', 'C05.gen_setLengths_eq_model', 'C05.gen_abc_eq_model', 'C05.gen_vectAngleCos_eq_model',
     'C05.gen_boxSetBody_eq_model', 'C05.gen_wrapBody_eq_model', 'C05.gen_wrapApi_eq_model', 'C05.gen_normalizeBody_eq_model',
-    'C05.gen_deepcopyKeys_eq_model',
+    'C05.gen_deepcopyKeys_eq_model', 'C05.angle_rejected_iff', 'C05.gen_abcGuard_eq_angleGuard', 'C05.arccosDeg_real',
 ]
 PARTIAL = {
     'input_left_as_it_was': 'a heap fact (aliasing/mutation), true by construction of the functional model and '
@@ -144,7 +144,9 @@ ASSUMPTIONS = [
     'the cell is non-singular (det vects != 0)',
     'arccos maps [-1, 1] strictly decreasingly onto [180, 0] degrees, so the refusal of Box.set_abc (an angle <= 0 or >= 180) '
     'is the test -1 < cos < 1 on the cosines vect_angle forms (angleGuard); normalize_never_refuses shows it never fires for '
-    'a non-singular cell',
+    'a non-singular cell. Since the growth round this is the explicit hypothesis ArccosDeg of theorem '
+    'gen_abcGuard_eq_angleGuard (for EVERY function acos that is strictly decreasing on [-1, 1] with acos 1 = 0, acos(-1) = 180, '
+    'the regenerated guard of set_abc applied to acos(clamp(cos)) equals not angleGuard, clamp = the clamp of vect_angle)',
     'source tie: two pieces of option handling are pinned by a normalised-AST hash instead of being regenerated as Lean '
     'definitions - System.atoms_prop (the model uses only its key=\'pos\', scale=True, no-index paths: read = '
     'position_cartesian_to_relative of the stored array, write = position_relative_to_cartesian stored under the key) and the '
@@ -3859,6 +3861,13 @@ def translate():
         bad('System.normalize: refusal')
     out['normStyleRefusal'] = ERR[exc]
     out['atomsPropPin'] = pin(method(S, 'atoms_prop'))
+    # pbc getter / setter
+    if [U(x) for x in body_of(method(S, 'pbc'))] != ['return self.__pbc']:
+        bad('System.pbc getter')
+    PB = {'pbc = np.asarray(value, dtype=bool)': 'asarrayBool', "assert pbc.shape == (3,), 'invalid pbc entry'": 'assertShape3',
+          'self.__pbc = pbc': 'store'}
+    out['pbcSetterSteps'] = [PB[U(x)] if U(x) in PB else bad('System.pbc setter: ' + U(x)[:60])
+                             for x in body_of(method(S, 'pbc', setter=True))]
 
     # ---------------------------------------------------------------- lammps/normalize.py
     ntree = ast.parse(cm.source('atomman/lammps/normalize.py'))
@@ -4093,6 +4102,8 @@ def translate():
         if not (isinstance(t, ast.Compare) and len(t.ops) == 1 and type(t.ops[0]) in CMP and isinstance(t.left, ast.Name)):
             bad('Box.set_abc: angle guard ' + U(t))
         guard.append((t.left.id, CMP[type(t.ops[0])], int(num(t.comparators[0]))))
+        if guard[-1][0] not in ('alpha', 'beta', 'gamma') or guard[-1][2] not in (0, 180) or guard[-1][1] not in ('≤', '≥'):
+            bad('Box.set_abc: angle guard ' + U(t))
     aenv = {x: (x, 'K') for x in 'abc'}
     for ang, nm in (('alpha', 'ca'), ('beta', 'cb'), ('gamma', 'cg')):
         aenv[f'np.cos({ang} * np.pi / 180)'] = (nm, 'K')
@@ -4221,6 +4232,9 @@ def translate():
     A('/-! ### `Box`: write protocol and dispatch -/')
     A(f'def vectsSetterSteps : List String := {strs(out["vectsSetterSteps"])}')
     A(f'def originSetterSteps : List String := {strs(out["originSetterSteps"])}')
+    A('/-- `System.pbc`: the getter hands out the stored array itself; the setter converts, checks the shape, stores -/')
+    A('def pbcGetterSteps : List String := ["returnInternal"]')
+    A(f'def pbcSetterSteps : List String := {strs(out["pbcSetterSteps"])}')
     A(f'/-- `Box.set`: keyword tested by each `elif`, with the `set_*` it calls / the setters it assigns -/')
     A('def boxSetDispatch : List (String × List String) := ' + lst('("%s", %s)' % (k, strs(v)) for k, v in disp))
     A(f'/-- `alpha beta gamma` are `vect_angle(self.__vects[i], self.__vects[j])` -/')
@@ -4271,6 +4285,13 @@ def translate():
         A(d)
     A('')
     A('end formulas')
+    A('')
+    A('section guard')
+    A('variable [Zero K] [OfNat K 180] [LE K] [DecidableLE K]')
+    A('/-- the refusal at the head of `set_abc` (`true` = `ValueError`) on the three angles in degrees -/')
+    A('def anglesRejected (alpha beta gamma : K) : Bool :=')
+    A('  ' + ' || '.join('decide (%s %s %d)' % g for g in guard))
+    A('end guard')
     A('')
     A('end Atomman.Generated.WrapSource')
     return {'WrapSource': '\n'.join(L) + '\n'}
